@@ -112,9 +112,15 @@ func main() {
 		nopor      = flag.Bool("nopor", false, "disable partial-order reduction and frozen-cell folding (cross-check)")
 		noloops    = flag.Bool("noloopcheck", false, "skip unwinding-assertion queries")
 	)
+	racyF := flag.String("racyfields", "", "Type.field,... : fields whose plain accesses get replay scheduling points")
 	instr := flag.String("instrument", "", "write instrumented sources for replay to this directory and exit")
 	flag.Parse()
 	if *instr != "" {
+		for _, f := range strings.Split(*racyF, ",") {
+			if f != "" {
+				racyFields[f] = true
+			}
+		}
 		instrumentMain(*repo, *pkgDir, *overlayDir, *instr)
 		return
 	}
@@ -162,7 +168,7 @@ func main() {
 		w.run(root)
 		racy, frozen, conflict := map[string]bool{}, map[string]bool{}, map[string]bool{}
 		for k, a := range w.access {
-			if a.racy() {
+			if a.racy() || (*race && a.shared()) {
 				racy[k] = true
 				res.RacyCells = append(res.RacyCells, w.accessName[k])
 			}
